@@ -84,7 +84,7 @@ def cpat(p):
         rest = "None" if p[2] in (None, "_") else f"(Some {p[2]}%N)"
         return f"(PTupleRest {clist(p[1], cpat)} {rest} {clist(p[3], cpat)})"
     if k == "pmap":
-        return "(PMap " + clist(p[1], lambda kv: f"({cbytes(kv[0])}, Some {kv[1]}%N)") + ")"
+        return "(PMap " + clist(p[1], lambda kv: f"({cbytes(kv[0])}, " + ("None" if kv[1] is None else f"Some {kv[1]}%N") + ")") + ")"
     if k == "por":
         return f"(POr {clist(p[1], cpat)})"
     raise ValueError(k)
@@ -267,7 +267,7 @@ def kpat(p):
         parts = [kpat(x) for x in p[1]] + [rest] + [kpat(x) for x in p[3]]
         return "(" + ", ".join(parts) + ")"
     if k == "pmap":
-        return "{" + ", ".join(f"{key} as {kid(x)}" for key, x in p[1]) + "}"
+        return "{" + ", ".join(f"{key} as " + ("_" if x is None else kid(x)) for key, x in p[1]) + "}"
     if k == "por":
         return " or ".join(kpat(x) for x in p[1])
     raise ValueError(k)
@@ -1174,9 +1174,12 @@ class MatchGen(Gen):
             keys = ["k0", "k1", "k2"][: 1 + self.r.below(2)]
             out = []
             for k in keys:
-                x = self.fresh("any")
-                binds.append(x)
-                out.append((k, x))
+                if self.chance(1, 3):
+                    out.append((k, None))          # `key as _`
+                else:
+                    x = self.fresh("any")
+                    binds.append(x)
+                    out.append((k, x))
             return ("pmap", out)
         return ("pwild", None)
 
